@@ -88,7 +88,11 @@ Contract == mb # 0 =>
 
 \* ---- value classes for the binary64 driver
 Exps == {-1022, -1021, -300, -1, 0, 1, 300, 1022, 1023}
-Mants == {"zero", "one", "ones", "carry23", "carry10", "carry4", "half23", "half10", "half4", "rand", "rand2"}
+\* exactK: exactly K fraction bits are needed (bit 52-K set, lower bits zero): the widths on both sides of what
+\* each precision keeps (HIGH 22, MEDIUM 9, LOW 3 fraction bits) and of binary32 (23) -- values a lossy mode
+\* reproduces exactly next to values it must round
+Mants == {"zero", "one", "ones", "carry23", "carry10", "carry4", "half23", "half10", "half4", "rand", "rand2",
+          "exact3", "exact4", "exact9", "exact10", "exact22", "exact23", "exact24"}
 Specials == {"pzero", "nzero", "pinf", "ninf", "qnan", "snan", "nanpayload", "minsub", "maxsub", "negsub"}
 ASSUME \A sg \in {0, 1}, ex \in Exps, mt \in Mants : PrintT(<<"FCLASS", sg, ex, mt>>)
 ASSUME \A sp \in Specials : PrintT(<<"FSPECIAL", sp>>)
